@@ -182,6 +182,9 @@ func cmdCheck(args []string) {
 	// closure: every writer of a guarded / immutable field of the types involved is under contract
 	closure := P.closureObligations(*prop)
 
+	// bounded stand-ins (labelled, never counted as discharged)
+	bounded := runBounded(*repo, *prop)
+
 	// pinned obligation names
 	pinned := loadPinned(filepath.Join(verifRoot, "obligations", *prop+".txt"))
 	produced := map[string]bool{}
@@ -277,6 +280,22 @@ func cmdCheck(args []string) {
 		os.WriteFile(filepath.Join(verifRoot, "obligations", *prop+".txt"), []byte("# obligation base names this property must generate (suffixes ~k and /k stripped)\n"+strings.Join(sortedKeys(producedBase), "\n")+"\n"), 0o644)
 		pinned = nil
 	}
+	for _, b := range bounded {
+		if b.OK {
+			continue
+		}
+		violations++
+		dir := filepath.Join(verifRoot, "out", "replay", *prop)
+		os.MkdirAll(dir, 0o755)
+		path := filepath.Join(dir, "bounded_"+b.Name+".json")
+		data, _ := json.MarshalIndent(map[string]any{"property": *prop, "obligation": "bounded:" + b.Name, "bound": b.Bound, "cases": b.Cases, "failures": b.Failures, "failing_inputs": b.Output, "test_file": b.File, "replayed_on_real_code": b.Failures > 0}, "", " ")
+		os.WriteFile(path, data, 0o644)
+		line := fmt.Sprintf("VIOLATION property=%s replay=%s", *prop, path)
+		if b.Failures == 0 {
+			line += " no-failing-input-found"
+		}
+		violationLines = append(violationLines, line)
+	}
 	for _, p := range pinned {
 		if !producedBase[p] {
 			undecided++
@@ -322,7 +341,7 @@ func cmdCheck(args []string) {
 			"undecided":                undecidedLines,
 			"lowering_notes":           sortedKeys(notes),
 			"pinned_obligations":       len(pinned),
-			"bounded_stand_ins":        []string{},
+			"bounded_stand_ins":        bounded,
 		}
 		ev.Assumptions = sortedKeys(trusted)
 		data, _ := json.MarshalIndent(ev, "", " ")
